@@ -57,6 +57,11 @@ def gen_scenarios(seed, tier):
             elif k == "throttle":
                 p["block"] = False
                 p["count"] = [rng.choice([1, 2])] + [rng.choice(["raise", 1, 2, None]) for _ in range(rng.randint(1, 3))] + [rng.choice([1, 2])]
+                if rng.random() < 0.3:
+                    # blocking mode with a count that never makes submit() wait (unlimited, or far above the load): the mode itself
+                    # must not make submit() - and a worker thread of a layer above that calls it - fail
+                    p["block"] = True
+                    p["count"] = rng.choice([None, None, [None, None], 50])
             elif k == "map":
                 p["script"] = [[rng.choice([["raise", "E1"], ["retarg"]])]]
                 p["errfn"] = rng.random() < 0.5
